@@ -212,7 +212,8 @@ fn real_main() {
                 machines.clone(),
                 verif_harness::model::frac(conf.fwPad),
                 verif_harness::model::frac(conf.fwBlk),
-                Xoshiro256StarStar::seed_from_u64(fseed),
+                // the plain stream, counted against the per-call draw budget
+                verif_harness::srng::Spiked { inner: Xoshiro256StarStar::seed_from_u64(fseed), lcg: 0, on: false },
             )
         };
         let (mut run, mut twin) = match (mk(), mk()) {
@@ -222,7 +223,9 @@ fn real_main() {
         b_run += 1;
         let mut problem: Option<serde_json::Value> = None;
         for (ci, c) in hist.iter().enumerate() {
+            verif_harness::srng::budget(c.events.len(), machines.len());
             let o = run.call(&c.events, c.t);
+            verif_harness::srng::budget(c.events.len(), machines.len());
             let o2 = twin.call(&c.events, c.t);
             b_calls += 1;
             if let Some(msg) = &o.panic {
